@@ -41,7 +41,7 @@ from geometer.utils import adjugate, det, hat_matrix, inv, is_multiple, matmul, 
 if TYPE_CHECKING:
     from typing_extensions import Unpack
 
-    from geometer.utils.typing import NDArrayParameters, TensorParameters
+    from geometer.utils.typing import NDArrayParameters, TensorIndex, TensorParameters
 
 
 class QuadricTensor(ProjectiveTensor, ABC):
@@ -95,6 +95,14 @@ class QuadricTensor(ProjectiveTensor, ABC):
             return super().__sub__(other)
 
         return translation(-other).apply(self)
+
+    def __getitem__(self, index: TensorIndex) -> Tensor | np.generic:
+        result = super().__getitem__(index)
+
+        if isinstance(result, QuadricTensor):
+            result.is_dual = self.is_dual
+
+        return result
 
     @classmethod
     def from_planes(cls, e: PlaneTensor, f: PlaneTensor) -> QuadricTensor:
